@@ -833,7 +833,9 @@ def _overlap(res, prop, config, bundle, spec, pair, ost, digest, sample):
                 break
     for rid, (r, out) in enumerate(zip(pair, outs)):
         if out.status == "stepcap":
-            raise HarnessError("step cap hit in overlapped run")
+            # a bound on the size of one simulated run, not a verdict
+            res.count("discard:stepcap")
+            return
         if out.status == "hang":
             V.append(Violation(("C08",), "hang", (config, "overlapped"),
                                str(out.exc) or "quiescent, result not done"))
@@ -992,7 +994,10 @@ def _evaluate(res, prop, config, req, out, hooks):
             "called %d times; %d calls were made under its name, by some "
             "other instance" % (tag, seen, logged)))
     if out.status == "stepcap":
-        raise HarnessError("step cap hit in %s" % config)
+        # a bound on the size of one simulated run, not a verdict (counted;
+        # the runner refuses a check whose discards exceed its cap)
+        res.count("discard:stepcap")
+        return
     exp = req.exp
     if out.status == "hang":
         why = str(out.exc)
